@@ -302,6 +302,17 @@ func init() {
 					_ = g.Canon()
 					_ = g.String()
 				}
+				// the same resolver is asked again, and about every other version of the root package:
+				// per-resolver caches must not turn an error into a panic
+				_, _ = r.Resolve(ctx, vk)
+				if vs, verr := lc.Versions(ctx, vk.PackageKey); verr == nil {
+					for _, v := range vs {
+						_, _ = r.Resolve(ctx, v.VersionKey)
+					}
+				}
+				if ctx.Err() != nil {
+					return sx.L(sx.Sym("hang"))
+				}
 				return cls(err)
 			case "resolveschema":
 				sys := resolveSystem(a.Nth(1).Int())
